@@ -96,8 +96,14 @@ EXTRA = {
     "C14": ("the merge matcher's loop body incl. the improvement test and score bookkeeping, score_beats_threshold", "merge_loop_ok, beats_metric_ok"),
     "C16": ("the lock/file skeleton of evaluate, _save_one_subject and make_statistic and the two module-level locks", "evaluate_fresh_ok, evaluate_claimed_ok, stat_ok, locks_ok (event sequences equal those of Agg.step)"),
     "C17": ("the file part of the aggregator constructor in ten file states and the claimed-subject path of evaluate", "ctor_ok, evaluate_claimed_ok (event sequences equal those of Agg.ctorStep / Agg.step)"),
+    "C11": (None, "end-to-end theorem pipeline_mirror (unmatched input, one-to-one matching on IoU/Dice, tie-free candidates: tp equal, counts exchanged, per-instance lists permuted) via uniqueness of the valid matching"),
+    "C09": (None, "end-to-end theorem pipeline_rename (injective renaming of both label sets and change of integer width: counts and tp equal, per-instance lists permuted, tie-free candidates) via uniqueness of the valid matching"),
+    "C06": (None, "centre-line Dice exercised in five memory layouts with and without label selection; large-scale masks (2^22 .. 2^24 voxels) judged by exact integer counts"),
+    "C19": (None, "label_norm_idem / label_norm_order_free: the one list normalisation of a constructor (sorted set of labels) is proved idempotent and order-independent"),
     "C10": (None, "end-to-end theorem pipeline_counts_invariant for instance input, threshold matching on IoU/Dice and the metrics IoU/Dice/RVD"),
 }
+
+SCALE = {"C01", "C03", "C04", "C06", "C07", "C10", "C14"}
 
 NA = {}
 PENDING_REASON = "machinery for this property is not yet built in this round (model exists or is planned per DESIGN.md §12); it is not claimed until its theorems and correspondence run"
@@ -117,6 +123,8 @@ def main():
                     note += " The extractors (harness/extract/*.py) are trusted to translate the matched syntax faithfully; anything outside their subset becomes `other` and fails the obligation."
                 else:
                     tech += f" + {thms}"
+            if pid in SCALE:
+                note += " Large-scale corpus cases (arrays of 10^6 - 2.5*10^7 voxels, axes beyond 46341 voxels) are judged by an exact integer oracle only; they do not pass through the Lean model."
             checks.append({
                 "property_id": pid,
                 "quick_cmd": f"bin/check {pid} quick",
